@@ -70,6 +70,15 @@ class CB:
         return self.b.eval(env)
 
 
+def bkey(b):
+    """structural key of a boolean formula (its printed form may abbreviate long atoms and collide)"""
+    if isinstance(b, B):
+        return (b.k,) + tuple(bkey(x) for x in b.a)
+    if isinstance(b, Rat):
+        return ('rat', frozenset(b.num.t.items()), frozenset(b.den.t.items()))
+    return b
+
+
 class CompiledRoot:
     def __init__(self, res):
         self.res = res
@@ -81,7 +90,7 @@ class CompiledRoot:
                 if isinstance(c, B) and c.k == 'const':
                     if not c.a[0]: keys = None; break
                     continue
-                s = str(c)
+                s = bkey(c)
                 if s not in self.cond_tab: self.cond_tab[s] = CB(c)
                 keys.append(s)
             if keys is not None: self.paths.append((keys, p))
